@@ -178,15 +178,117 @@ func c05RunCLI(ctx *Ctx, base *c05Table, others []*c05Table) (*xt.T, Verdict) {
 		}
 	}
 	commit := xt.N()
-	if !conflicts {
+	unresolved := conflicts
+	var unresKeys [][]string
+	if lerr == nil && lib.Status == 0 {
+		unresolved = false
+		for _, r := range lib.Recs {
+			if !r.Resolved {
+				unresolved = true
+				unresKeys = append(unresKeys, r.Key)
+			}
+		}
+	}
+	if !unresolved && !conflicts {
 		var v2 Verdict
 		commit, v2 = c05CLICommit(root, base, others)
 		if v.OK {
 			v = v2
 		}
+	} else {
+		// never silent, at command level: a record that the library reports as unresolved must be
+		// shown as a conflict or make the command refuse.  This verdict does not depend on (and
+		// takes precedence over) whatever the library result itself was judged to be.
+		var v2 Verdict
+		commit, v2 = c05CLIConflictPath(root, wrglDir, base, unresKeys)
+		if !v2.OK {
+			v = v2
+		}
 	}
 	obs.Add(commit)
 	return obs, v
+}
+
+func c05Head(wrglDir, branch string) []byte {
+	rd, err := local.NewRepoDir(wrglDir, "")
+	if err != nil {
+		return nil
+	}
+	defer rd.Close()
+	sum, err := ref.GetHead(rd.OpenRefStore(), branch)
+	if err != nil {
+		return nil
+	}
+	return sum
+}
+
+// c05CLIConflictPath runs `wrgl merge` WITHOUT --no-gui although something conflicts.  The merge
+// tool cannot start (TERM names no terminal), so the command must fail and leave the branch alone;
+// a command that succeeds has concluded the merge on its own, silently picking a side.
+//
+//	observation: (1) refused | ((col ...) ((cell ...) ...)) what it committed / wrote
+func c05CLIConflictPath(root, wrglDir string, base *c05Table, unresKeys [][]string) (commit *xt.T, v Verdict) {
+	v = OK()
+	oldTerm, hadTerm := os.LookupEnv("TERM")
+	os.Setenv("TERM", "wrgl-verif-no-such-terminal")
+	defer func() {
+		if hadTerm {
+			os.Setenv("TERM", oldTerm)
+		} else {
+			os.Unsetenv("TERM")
+		}
+	}()
+	defer func() {
+		if r := recover(); r != nil {
+			commit = xt.N(xt.LI(2))
+			v = Fail("cli-merge-panic", "wrgl merge panicked on the conflict path: %v", r)
+		}
+	}()
+	describe := func(rows [][]string, cols []string) string {
+		// which unresolved keys reappear with the base row
+		pkIdx := c05PKIdx(cols, base.PK)
+		var kept []string
+		for _, k := range unresKeys {
+			for _, r := range rows {
+				ok := len(pkIdx) > 0
+				for i, p := range pkIdx {
+					if p < 0 || p >= len(r) || r[p] != k[i] {
+						ok = false
+					}
+				}
+				if ok {
+					kept = append(kept, fmt.Sprintf("%q", r))
+				}
+			}
+		}
+		return fmt.Sprintf("unresolved keys %q; rows for them in the result: %v", unresKeys, kept)
+	}
+	head0 := c05Head(wrglDir, "b1")
+	if _, err := c05Cmd("merge", "b1", "b2", "--no-commit"); err == nil {
+		if mf, gerr := c05Glob1(root, "MERGE_*.csv"); gerr == nil {
+			if mrecs, rerr := c05ReadCSV(mf); rerr == nil && len(mrecs) > 0 {
+				return xt.N(xt.Strs(mrecs[0]), c05RowsTree(mrecs[1:])),
+					Fail("merge-cmd-unresolved-not-reported", "wrgl merge --no-commit wrote a result without reporting the conflict: %s",
+						describe(mrecs[1:], mrecs[0]))
+			}
+		}
+		return xt.N(xt.LI(0)), Fail("merge-cmd-unresolved-not-reported", "wrgl merge --no-commit succeeded although the library reports unresolved records %q", unresKeys)
+	}
+	_, err := c05Cmd("merge", "b1", "b2")
+	head1 := c05Head(wrglDir, "b1")
+	if err == nil || !bytes.Equal(head0, head1) {
+		out, _ := c05Cmd("export", "b1")
+		er := csv.NewReader(strings.NewReader(out))
+		er.FieldsPerRecord = -1
+		erecs, _ := er.ReadAll()
+		if len(erecs) == 0 {
+			erecs = [][]string{{}}
+		}
+		return xt.N(xt.Strs(erecs[0]), c05RowsTree(erecs[1:])),
+			Fail("merge-cmd-unresolved-not-reported", "wrgl merge committed (err=%v, branch moved=%v) without reporting the conflict: %s",
+				err, !bytes.Equal(head0, head1), describe(erecs[1:], erecs[0]))
+	}
+	return xt.N(xt.LI(1)), v
 }
 
 func c05CLICommit(root string, base *c05Table, others []*c05Table) (commit *xt.T, v Verdict) {
